@@ -50,6 +50,8 @@ theorem repay_close_balances {E : Env} {g : Int} {now : Int} {s s' : St} {owner 
   · cases h
   split at h
   · cases h
+  split at h
+  · cases h
   rename_i id' c0' hf'
   rw [hf] at hf'; cases hf'
   split at h
